@@ -26,6 +26,10 @@ T = {
          "Trusts go/ssa, the reaching-definition versioning of receiver fields (a call that is handed the receiver pointer invalidates it), rational relaxation of integer constraints (sound for refutation).",
          "format-operand agreement rule + relational (linear-inequality) bounds analysis over dominating conditions + polarity/normalisation sibling rule on SSA", "DESIGN.md 4/C13"),
 
+ "C15": ("Static analysis: (1) key tables agree - buildSearchOp's type switch has a case for each of the concrete command.SearchKey types and dispatches to that key's builder; the SEARCH parser constructs each type, under the keyword constant that is the type's lower-cased name; (2) declared needs - for each of the 37 builders the searchData fields its closure reads are enabled by the options it passes (field->flag map derived from buildSearchData, flag sets derived from the options' apply methods), options enable what they depend on, and composite builders merge every child on every success path; (3) the parallel worker writes result[i] only and Search returns the filtered index-ordered slice; UID SEARCH maps through .UID, SEARCH through .Seq; (4) the boolean function of every loop-free key closure (34 keys: flags, UN-flags, NEW/OLD, KEYWORD/UNKEYWORD, NOT, OR, header keys, LARGER/SMALLER, date keys) is computed by case analysis over its atoms and compared with the RFC 3501 table; UID/sequence-set closures test the right number space. The conjunction over a key list, substring/charset semantics, date arithmetic and the view used are not decided.",
+         "Trusts go/ssa; the specification table of R15.4 (RFC 3501 6.4.4) is part of the checker; atoms are canonicalised structurally (operand roles), errors of calls inside closures are assumed nil.",
+         "exhaustiveness/table-agreement rules + derived field/flag dependency rule + truth-table evaluation of closures by case analysis on SSA", "DESIGN.md 4/C15"),
+
  "C16": ("Static analysis: (1) the number parser rejects, on every accumulation step, values above a constant <= 2^32-1, and every conversion to the 32-bit SeqID/UID types in internal/state has a bounded operand, so no message-set number can be truncated or wrapped onto another message; (2) every consumer of resolved sequence intervals checks both ends against the view before use (per iteration, dominating the use, or in a universal error-returning check loop); (3) no UID/SeqID value or difference is reinterpreted in a narrower or signed 32-bit type; (4) loops over a set's intervals are left only by exhaustion or return (result independent of the order in which the set was written). The set algebra itself (range normalisation, '*') is not decided.",
          "Trusts go/ssa; rule tables of view-bound check functions are derived structurally (SeqID parameter compared with len(list.msg)).",
          "dominator-based bound-check rules + conversion/type-width lint over SSA + loop-exit shape rule", "DESIGN.md 4/C16"),
